@@ -109,7 +109,8 @@ pub fn run_case(ctx: &mut CaseCtx) -> CaseResult {
                 };
                 ops.push(HOp::Advance(st));
             }
-            15..=16 => ops.push(HOp::Flush),
+            15 => ops.push(HOp::Flush),
+            16 => ops.push(if rng.chance(1, 3) { HOp::Reopen } else { HOp::Flush }),
             17 => ops.push(HOp::Trigger),
             _ => {
                 if rng.chance(1, 2) {
